@@ -129,9 +129,6 @@ func (e *Env) ParseHost(input string, isOpaque bool) (string, bool) {
 			return "", false
 		}
 		inner := input[1 : len(input)-1]
-		if e.q("ipv6-bracket-trim") {
-			inner = strings.Trim(input, "[]")
-		}
 		a, ok := ParseIPv6(inner)
 		if !ok {
 			return "", false
@@ -217,11 +214,6 @@ func (e *Env) parseIPv4Number(input string) (*big.Int, bool) {
 	if input == "" {
 		return big.NewInt(0), true
 	}
-	neg := false
-	if e.q("ipv4-sign") && (input[0] == '+' || input[0] == '-') && len(input) > 1 {
-		neg = input[0] == '-'
-		input = input[1:]
-	}
 	for _, r := range input {
 		switch R {
 		case 10:
@@ -241,9 +233,6 @@ func (e *Env) parseIPv4Number(input string) (*big.Int, bool) {
 	n, ok := new(big.Int).SetString(input, R)
 	if !ok {
 		return nil, false
-	}
-	if neg {
-		n.Neg(n)
 	}
 	return n, true
 }
@@ -282,9 +271,6 @@ func (e *Env) ParseIPv4(input string) (uint32, bool) {
 		m := new(big.Int).Exp(big.NewInt(256), big.NewInt(int64(3-i)), nil)
 		ipv4.Add(ipv4, m.Mul(m, n))
 	}
-	// quirk ipv4-sign can produce negatives / wraparound: the known defect truncates to 32 bits
-	mod := new(big.Int).Lsh(big.NewInt(1), 32)
-	ipv4.Mod(ipv4, mod)
 	return uint32(ipv4.Uint64()), true
 }
 
